@@ -12,7 +12,7 @@ from .layout import LayoutShape
 from . import c02, refasm
 
 ID = 'C14'
-BUDGET_S = {'quick': 170, 'thorough': 1800}
+BUDGET_S = {'quick': 170, 'thorough': 3600}
 SHAPE_WALL_S = {'quick': 100, 'thorough': 600}
 FAMILY = ('PIPE with the image written: (a) seeded random programs with zero-length directives (.fill 0,x / .zero 0 / '
           '.zerountil behind the cursor / empty string) inserted at every position incl. first, last and at an address shared '
@@ -87,7 +87,7 @@ FAULTS = [
 def shapes(tier, seed):
     rnd = random.Random(1400 + seed)
     S = []
-    n = 80 if tier == 'quick' else 1500
+    n = 80 if tier == 'quick' else 4000
     progs = []
     for i in range(n):
         prog, syms = c02.random_program(rnd, rnd.randint(4, 8), rich_branches=False)
